@@ -10,6 +10,7 @@
           -> OK <amount> <mask> | NONE | NOPOINT                         EcdhInfo::open_commitment
      subkey_check <v> <S> <maj_lo> <maj_hi> <min_lo> <min_hi> <pos> <P> <tx key> -> OK <maj> <min> | NONE   SubKeyChecker::check
      txout_key <txout hex> -> OK <key|-> | ERR                          TxOut::get_one_time_key
+     viewtag <target hex> <rv> <position> -> OK 0|1 | ERR | ERR key       TxOutTarget::check_view_tag
      build_scan <scenario> (MODEL ONLY)  runs Spec/Sender.v and assembles a transaction; see `p_scenario` below. *)
 From MRS Require Import Model.Base Model.EdInst Model.Keys Model.Derive Model.Subaddr Model.Codec Model.Show Model.Extra
                         Model.Ecdh Model.Scan Model.OpsBasic Model.OpsCurve.
@@ -329,6 +330,17 @@ Definition ops_scan (op : string) (args : list string) : option string :=
         Some (match deserialize dec_txout b with
               | Ok o => join_sp ["OK"; opt_tok hx (as_one_time_key (o_target o))]
               | Err _ => "ERR" | Panic => "PANIC" end))
+    | _ => None end
+  else if String.eqb op "viewtag" then
+    (* TxOutTarget::check_view_tag called directly: deserialize::<TxOutTarget>(bytes), a derivation (any valid public key) and ANY
+       position up to u64::MAX (the scanner only ever passes positions of real outputs) *)
+    match args with
+    | [h; rv; i] => with_hex h (fun b => with_hex rv (fun rv => with_u64 i (fun i =>
+        Some (match deserialize dec_target b, PK rv with
+              | Ok t, Ok rv => if check_view_tag Hbk t rv i then "OK 1" else "OK 0"
+              | Panic, _ | _, Panic => "PANIC"
+              | Err _, _ => "ERR"
+              | _, Err _ => "ERR key" end))))
     | _ => None end
   else if String.eqb op "build_scan" then
     p_all p_scenario args
